@@ -1,7 +1,7 @@
 """C13 — MPMC FIFO is a linearizable queue (structural part: hazard typestate + publication order)."""
 from core import strip, is_field, order_ge, key_str, key_mentions
 from facts import AnalysisBroken
-from rules import (through_local, nodeset, callpred, atom_from, reach)
+from rules import (check_init, through_local, nodeset, callpred, atom_from, reach)
 import hazard
 
 EXPLANATION = (
@@ -131,3 +131,19 @@ def run(ctx):
                 if not ok:
                     bad = bad or ("`%s` in %s" % (s.node.text, fn.name), s.node)
     o.check(bad is None, "writers table", "unexpected writer " + (bad[0] if bad else ""), site=bad[1] if bad else None, construct="mpmc head/tail writer")
+    f = P.fn("mpmc_fifo_init")
+    o = ctx.ob("init", f, "init makes the given node the dummy: head == tail == initial_node with prev (and value) cleared", "a dummy with a stale prev makes the first pop return garbage")
+    bad = None
+    ts = f.stores_to(Q, "tail")
+    hs = f.stores_to(Q, "head")
+    pn = [s for s in f.stores_to(N, "prev") if strip(s.value).cv == 0]
+    if len(ts) != 1 or len(hs) != 1 or not pn:
+        bad = "head / tail / prev not initialised"
+    else:
+        tv = f.resolve(ts[0].value)
+        if not (tv.k == "DeclRefExpr" and tv.name == "initial_node"):
+            bad = "tail is not the initial node"
+        hk = f.key(hs[0].value, True)
+        if not (hk == f.key(ts[0].value, True) or (hk[0] == "f" and hk[2] == "tail")):
+            bad = bad or "head is not the same node as tail"
+    o.check(bad is None, "head == tail == dummy", bad, site=f.loc, construct="mpmc init")
